@@ -616,7 +616,11 @@ impl Objective {
 
 impl fmt::Display for Objective {
     fn fmt(&self, f: &mut fmt::Formatter<'_>) -> fmt::Result {
-        write!(f, "{} {}", self.objective_type, self.rhs)
+        match self.objective_type {
+            // the grammar accepts `solve` alone, a satisfiability problem has no objective
+            OptimizationType::Satisfy => write!(f, "{}", self.objective_type),
+            _ => write!(f, "{} {}", self.objective_type, self.rhs),
+        }
     }
 }
 
